@@ -109,7 +109,7 @@ def _gradients_self_contained(doc, out):
 _mk("C02", "render.structural", ("structural",), _render_oracle(), "composited colour of source vs converted document at grid points outside a 0.4% epsilon band of every edge (independent reference evaluator)", pinned=("two_nested_svgs_clip_ids", "use_of_a_template_inside_a_hidden_group", "nested_svg_viewbox_equals_viewport_with_offset", "nested_svg_carries_paint"))
 _mk("C03", "render.clipped", ("clipped",), _render_oracle(extra=_no_clip_left), "as C02, with clip membership; plus: no clip-path / clipPath left in the output", pinned=("use_clip_target_transform", "clip_rule_on_the_clippath"))
 _mk("C05", "render.cascade", ("cascade",), _render_oracle(), "composited colour (source-over, group opacity) of source vs converted document at grid points",
-    pinned=("root_opacity", "explicit_fill_equal_to_defs_context", "opacity_rounded_with_coordinates", "fill_opacity_above_one", "fill_and_stroke_under_opacity", "nested_svg_carries_paint"))
+    pinned=("root_opacity", "explicit_fill_equal_to_defs_context", "opacity_rounded_with_coordinates", "fill_opacity_above_one", "fill_and_stroke_under_opacity", "nested_svg_carries_paint", "use_overrides_inherited_opacity_spelled_differently", "opacity_above_one"))
 _mk("C06", "render.gradients", ("gradients",), _render_oracle(extra=_gradients_self_contained), "gradient colour at interior grid points of source vs converted document; output gradients self-contained", pinned=("stroke_gradient_under_transform", "empty_subpath_changes_gradient_bbox"))
 _mk("C04", "render.stroked", ("stroked",), _render_oracle(stroke=True), "three-valued stroke region: points well inside the stroke band or well outside it (caps, joins, band edge skipped), source vs converted", pinned=("stroke_width_zero", "stroke_opacity_above_one", "fill_and_stroke_under_opacity"))
 
